@@ -9,6 +9,8 @@ import (
 	"encoding/json"
 	"fmt"
 	"math/big"
+	"runtime"
+	"runtime/debug"
 	"sort"
 	"strings"
 	"sync"
@@ -644,6 +646,116 @@ func (c *c13Ctx) count(k string, n int) {
 	c.mu.Unlock()
 }
 
+// historyFamily: verification results must not depend on what was verified
+// before. One locked OS thread, collector off (whatever a component keeps
+// between calls is handed to the next call); baselines first, in a clean
+// state. Every [poison, probe] pair: poison = a forged transfer with one of
+// the un-hashable/odd data shapes (binary and raw JSON) or a valid transaction;
+// probe = each (key, tx) with its correct signature (must be accepted, id as
+// in the clean state) and with another key's signature (must be rejected),
+// in every presentation.
+func (c *c13Ctx) historyFamily(nKeys, nTx int) {
+	r := c.r
+	runtime.LockOSThread()
+	defer runtime.UnlockOSThread()
+	old := debug.SetGCPercent(-1)
+	defer debug.SetGCPercent(old)
+	type probe struct {
+		name    string
+		js, bin []byte
+		want    bool
+		id      []byte
+	}
+	var probes []probe
+	for ki := 0; ki < nKeys; ki++ {
+		for ti := 0; ti < nTx; ti++ {
+			k, t := c.keys[ki], &c13Tmpls[ti]
+			id, data, err := c13Unsigned(t, k.addr)
+			if err != nil {
+				panic(err)
+			}
+			good := c.goodSig(k, id)
+			bad := c.goodSig(c.keys[(ki+1)%nKeys], id)
+			probes = append(probes,
+				probe{fmt.Sprintf("correct/key=%s/tx=%s", k.name, t.name), t.json(k.addr, good), c13BinBytes(&data, good), true, id},
+				probe{fmt.Sprintf("other-key/key=%s/tx=%s", k.name, t.name), t.json(k.addr, bad), c13BinBytes(&data, bad), false, id})
+		}
+	}
+	// clean-state baseline
+	for _, p := range probes {
+		for pres := 0; pres < c13NPres; pres++ {
+			acc, _, id := c13Submit(pres, p.js, p.bin)
+			if acc != p.want || !bytes.Equal(id, p.id) {
+				r.Sanity(false, "history baseline of %s/%s is already off (accepted=%v)", p.name, c13PresName[pres], acc)
+			}
+		}
+	}
+	type poison struct {
+		name string
+		run  func()
+	}
+	var poisons []poison
+	victim := c.keys[0]
+	forged := refForgeE0(victim.pub, big.NewInt(2))
+	for di := range c13OddData {
+		od := c13OddData[di]
+		nid := common.HexInt64{Value: 1}
+		m := c13Bin{Version: common.HexUint16{Value: 3}, From: *common.MustNewAddressFromString(victim.addr),
+			To: *common.MustNewAddressFromString("hx00000000000000000000000000000000000a77ac"), Value: common.NewHexInt(1),
+			StepLimit: *common.NewHexInt(1000000), TimeStamp: common.HexInt64{Value: 1700000000000000}, NID: &nid, Signature: forged}
+		if od.dataType != "" {
+			dt := od.dataType
+			m.DataType = &dt
+		}
+		if od.data != "" {
+			m.Data = json.RawMessage(od.data)
+		}
+		bin, err := codec.MarshalToBytes(&m)
+		if err != nil {
+			panic(err)
+		}
+		js := []byte(`{"version":"0x3","from":"` + victim.addr + `","to":"hx00000000000000000000000000000000000a77ac","stepLimit":"0xf4240","timestamp":"0x1","signature":"` +
+			base64.StdEncoding.EncodeToString(forged) + `"`)
+		if od.data != "" {
+			js = append(js, []byte(`,"data":`+od.data)...)
+		}
+		js = append(js, '}')
+		poisons = append(poisons,
+			poison{"odd-data=" + od.name + "/binary", func() { ev.Catch(func() { c13Submit(c13PresBin, nil, bin) }) }},
+			poison{"odd-data=" + od.name + "/rawjson", func() { ev.Catch(func() { c13Submit(c13PresRaw, js, nil) }) }})
+	}
+	for i := range probes {
+		p := probes[i]
+		poisons = append(poisons, poison{"probe:" + p.name + "/binary", func() { c13Submit(c13PresBin, p.js, p.bin) }})
+	}
+	n := 0
+	for _, po := range poisons {
+		for _, p := range probes {
+			for pres := 0; pres < c13NPres; pres++ {
+				po.run()
+				r.Eval(1)
+				acc, stage, id := c13Submit(pres, p.js, p.bin)
+				n++
+				if acc != p.want || (id != nil && !bytes.Equal(id, p.id)) {
+					kind := strings.SplitN(p.name, "/", 2)[0]
+					pn := po.name
+					if strings.HasPrefix(pn, "probe:") {
+						pn = "valid-transaction"
+					}
+					r.Violation(fmt.Sprintf("result-depends-on-history/after=%s/then=%s/%s", pn, kind, c13PresName[pres]),
+						fmt.Sprintf("after %s, %s via %s: accepted=%v (clean state: %v) stage=%s id=%x (clean state %x)", po.name, p.name, c13PresName[pres], acc, p.want, stage, id, p.id),
+						map[string]string{"after": po.name, "then": p.name, "presentation": c13PresName[pres]})
+				}
+				if n%2048 == 0 {
+					runtime.GC()
+					runtime.GC()
+				}
+			}
+		}
+	}
+	r.Set("history_pairs", n)
+}
+
 func c13Flip(b []byte, bit int) []byte {
 	o := append([]byte(nil), b...)
 	o[bit/8] ^= 1 << uint(bit%8)
@@ -904,7 +1016,7 @@ func TestVerifC13(t *testing.T) {
 		"(r,n-s) twin, (n-r,s), r<->s, signature by every other key, signature by the same key over other ids, " +
 		"sender address = every 1-bit neighbour / contract twin / other key's address}; thorough adds every 2-bit flip for one (key,tx); " +
 		"each case through JSON, raw-JSON and binary constructors; non-trivial = distinct (key,tx,from,signature bytes); " +
-		"plus sign/recover/serialise round trip for every key x hash; plus signatures forged from the public key alone (R=a*P, r=R.x, s=r/a) x hashes {nil, empty, 1/31/32/33/64 bytes, zero, n, real id} at the crypto level and x 16 un-hashable/odd data shapes as binary/JSON transfers from the victim")
+		"plus a history family (one locked OS thread, collector off): every pair [forged un-hashable transfer (16 data shapes, binary/raw JSON) or valid transaction, then (key,tx) with its correct signature / another key's signature in each presentation] must give the clean-state result; plus sign/recover/serialise round trip for every key x hash; plus signatures forged from the public key alone (R=a*P, r=R.x, s=r/a) x hashes {nil, empty, 1/31/32/33/64 bytes, zero, n, real id} at the crypto level and x 16 un-hashable/odd data shapes as binary/JSON transfers from the victim")
 	r.Assume("reference secp256k1/ECDSA arithmetic written with math/big in the harness is correct (it is cross-checked against goloop on every unmutated signature)",
 		"golang.org/x/crypto/sha3 is trusted (used by both sides for the address)",
 		"the transaction id is taken from goloop (its correctness is C12); C13 checks that it does not depend on the signature",
@@ -962,6 +1074,9 @@ func TestVerifC13(t *testing.T) {
 		r.Finish(false)
 		return
 	}
+
+	// part 0: history independence (first: its baselines need a clean state)
+	c.historyFamily(nKeys, len(c13Tmpls))
 
 	// part 1: round trips (all 8 keys, boundary hashes)
 	c.keys = all
